@@ -262,17 +262,16 @@ Proof.
   apply a_csi_is_read_csi. exact Hok.
 Qed.
 
-(* an aux block one byte longer than its header: the sync model rejects the file, the async reader
-   returns the index (finding async-csi-aux-trailing-bytes-differs) *)
+(* an aux block five bytes longer than its header (padding 1 0 0 0 0), then n_ref = 0: the sync model
+   takes the padding for n_ref = 1 and returns an index with one empty reference sequence, the async
+   reader returns the index that was written, with none (finding async-csi-aux-trailing-bytes-differs) *)
 Definition csi_padded_aux : list N :=
   [67; 83; 73; 1; 14; 0; 0; 0; 6; 0; 0; 0; 33; 0; 0; 0;
    2; 0; 0; 0; 1; 0; 0; 0; 2; 0; 0; 0; 0; 0; 0; 0; 35; 0; 0; 0; 0; 0; 0; 0; 0; 0; 0; 0;
-   138; 22; 95; 113; 16; 0; 0; 0; 0].
+   1; 0; 0; 0; 0; 0; 0; 0; 0].
 
 Theorem a_csi_padded_aux_differs : forall codes chunk,
-  sync_csi_case csi_padded_aux = None
-  /\ exists i, async_csi_case codes chunk csi_padded_aux = Some i.
+  async_csi_case codes chunk csi_padded_aux <> sync_csi_case csi_padded_aux.
 Proof.
-  intros codes chunk. split; [vm_compute; reflexivity|].
-  rewrite async_csi_case_closed. eexists. vm_compute. reflexivity.
+  intros codes chunk. rewrite async_csi_case_closed. vm_compute. intros H. discriminate H.
 Qed.
